@@ -720,26 +720,30 @@ def verifystrict(ctx):
             else:
                 continue
             f_t, t_t = bool_switch_targets(t)
-            def straight_to_false(x):
-                for _ in range(6):
-                    if x in false_blocks:
-                        return True
-                    sc = [y for y in fa.succs(x) if not fa.blocks[y].get("cleanup")]
-                    if len(sc) != 1 or fa.term(x)["k"] not in ("goto", "drop"):
-                        return False
-                    x = sc[0]
-                return False
-
-            rej_true = straight_to_false(t_t)
-            rej_false = straight_to_false(f_t) and not rej_true
-            if not (rej_true or rej_false):
-                continue
-            opn = e[1] if rej_true else {"Lt": "Ge", "Le": "Gt", "Gt": "Le", "Ge": "Lt"}[e[1]]
-            # reject iff  L+lc OP R+rc ; want  count - id <= 0
+            # the edge on which the id is NOT below the count (the count is the smaller side)
+            small_count_on_true = (cnt_left and e[1] in ("Lt", "Le")) or (not cnt_left and e[1] in ("Gt", "Ge"))
+            oor_t = t_t if small_count_on_true else f_t
+            opn = e[1] if small_count_on_true else {"Lt": "Ge", "Le": "Gt", "Gt": "Le", "Ge": "Lt"}[e[1]]
+            # on that edge:  L+lc OPN R+rc ; want  count - id <= 0
             if cnt_left:      # count + lc OP id + rc  ->  count - id OP rc - lc
                 kk = rc - lc if opn == "Le" else rc - lc - 1 if opn == "Lt" else None
             else:             # id + lc OP count + rc  ->  count - id OP' lc - rc
                 kk = lc - rc if opn == "Ge" else lc - rc - 1 if opn == "Gt" else None
+            # ... and from that edge no accepting exit is reachable except through a rejection
+            rest = fa.reachable(oor_t, avoid=false_blocks) if oor_t not in false_blocks else set()
+            if is_matrix:
+                escapes = bool(rest & ok_b)
+            else:
+                escapes = any(fa.term(x)["k"] == "return" for x in rest)
+            if escapes:
+                n += 1
+                ctx.ob("VERIFYSTRICT", "%s|cmp|%d|rejects" % (p, k_), False, fa.loc(b),
+                       "%s: an id that is not below the connector's count (%s %s %s) can still be "
+                       "accepted - the out-of-range outcome of this comparison reaches an accepting "
+                       "return without passing a rejection (conditions joined with && instead of ||?)"
+                       % ("::".join(p.split("::")[-2:]), show(e[2]), e[1], show(e[3])))
+                k_ += 1
+                continue
             n += 1
             ok = kk == 0
             ctx.ob("VERIFYSTRICT", "%s|cmp|%d" % (p, k_), ok, fa.loc(b),
